@@ -41,6 +41,22 @@ def gen(seed, tier):
             out.append(f"matmul {arr(s2, vals(rng, prod(s2)))} {arr(s1, vals(rng, prod(s1)))}")
     for s1, s2 in [([2, 3], [3, 2]), ([3, 2], [3, 2]), ([2, 2, 3], [2, 2, 3]), ([2, 3], [4, 3]), ([2, 3], [3]), ([3], [2, 3])]:
         out.append(f"inner {arr(s1, vals(rng, prod(s1)))} {arr(s2, vals(rng, prod(s2)))}")
+    # long inner dimensions / long vectors (a blocked or chunked product must not lose a tail); square sides, since the
+    # repository's matmul compares rows(a) with cols(b) (open finding F15)
+    small = lambda n: [rng.randint(-3, 3) for _ in range(n)]
+    for L in (7, 8, 9, 15, 16, 17, 31, 32, 33, 63, 64, 65, 100, 129):
+        ty = tys[L % 4]
+        out.append(f"vdot@{ty} {arr([L], small(L))} {arr([L], small(L))}")
+        out.append(f"inner@{ty} {arr([L], small(L))} {arr([L], small(L))}")
+        out.append(f"dot@{ty} {arr([L], small(L))} {arr([L], small(L))}")
+        out.append(f"matmul@{ty} {arr([L], small(L))} {arr([L], small(L))}")
+        if L <= 33:
+            out.append(f"matmul@{ty} {arr([L, L], small(L * L))} {arr([L], small(L))}")
+            out.append(f"matmul@{ty} {arr([L], small(L))} {arr([L, L], small(L * L))}")
+            out.append(f"inner@{ty} {arr([2, L], small(2 * L))} {arr([3, L], small(3 * L))}")
+        if L <= 17:
+            out.append(f"matmul@{ty} {arr([L, L], small(L * L))} {arr([L, L], small(L * L))}")
+            out.append(f"outer@{ty} {arr([L], small(L))} {arr([L + 1], small(L + 1))}")
     n = 100 if tier == "quick" else 3000
     for _ in range(n):
         r, kk, p = rng.randint(1, 5), rng.randint(1, 5), rng.randint(1, 5)
